@@ -92,6 +92,16 @@ def strata(tier):
         yield gen(G.rng_for("C15-strata", j), tier)
 
 
+_strata0 = strata
+
+
+def strata(tier):  # noqa: F811
+    yield from _strata0(tier)
+    for c in c07.corpus_cases(tier, "C15"):
+        # the cast model resolves data-path arguments against the copy, as the library does
+        yield c
+
+
 def budget(tier):
     return 25000 if tier == "quick" else 500000
 
@@ -273,6 +283,8 @@ def run(case, ctx):
                 n += 1
             return n
         replaced = count(doc, exp["cast_data"])
+    if case.get("w4"):
+        ctx.count("W4-corpus-cases")
     ctx.count("nodes-replaced", replaced)
     if case.get("cls"):
         for c in casts.split("+"):
